@@ -80,11 +80,10 @@ class GlobalPeaksBatchIndependence(_TwoRun):
     thorough_cases = cases + ("integral3:1:0", "integral2:1:1")
     bounded = ("the relational form of integral refinement is decided for a frame alone vs. as one of 2 samples, 1 channel, patch sizes 3 and 5 (thorough: 2); "
                "with 2 channels the 16 validity patterns x crop batches exceed the time budget and are not claimed",)
-    not_decided = ("CentroidCrop.forward / _generate_crops: per-sample split of the peak list, top-k by value when max_instances is set, NaN padding and the skip of all-NaN samples "
-                   "(python loops over a symbolic number of peaks; outside the verifier's subset) -- so 'the instances kept are the highest-scoring ones' is NOT decided",
-                   "BottomUpInferenceModel._generate_cms_peaks / forward (split by sample index; nested tensors) and PAFScorer.predict batch glue",
+    not_decided = ("CentroidCrop with return_crops=True (_generate_crops) and use_gt_centroids; CentroidCrop.forward(return_crops=False) is decided for bounded peak counts only (see CentroidCropPerSample)",
+                   "PAFScorer.predict batch glue (BottomUpInferenceModel._generate_cms_peaks / forward are decided under C03)",
                    "Predictor._predict_generator: alignment of the frame_idx / video_idx / orig_size / eff_scale lists with the image batch (consumer loop, see C13)",
-                   "integral refinement in relational form (per-sample characterisations of the refined detectors are proved under C06/C07 for the listed patch sizes)",
+                   "integral refinement in relational form beyond the bounded cases listed (2 channels, symbolic batch)",
                    "the network itself: per-sample independence of the model in eval mode is an ASSUMPTION of these contracts (ghost TableNet)")
 
     def inputs(self, c, case):
@@ -285,4 +284,113 @@ class FindInstancePeaksBatchIndependence(_ForwardTwoRun):
                all(o.get(k) == "%s-%s" % (k, t) for o, t in ((o1, "A"), (o2, "B")) for k in ("frame_idx", "video_idx", "centroid")))]
         for key, nm in (("pred_instance_peaks", "predicted-points"), ("pred_peak_values", "predicted-values"), ("instance_bbox", "crop-bounding-box")):
             cl += _rows_equal("PL/%s-of-the-crop-do-not-depend-on-its-batch" % nm, o1.get(key), o2.get(key), a, b)
+        return cl
+
+
+# ------------------------------------------------------------------ CentroidCrop (bounded)
+TD = "sleap_nn.inference.topdown."
+
+
+class FixedNet:
+    __pyvc_native__ = True
+
+    def __init__(self, out):
+        self.out = out
+
+    def __call__(self, image):
+        return self.out
+
+    def __pyvc_getattr__(self, interp, name):
+        raise Unsupported("attribute %s of the ghost network" % name)
+
+
+@contract
+class CentroidCropPerSample(Contract):
+    """BOUNDED: CentroidCrop.forward (return_crops=False) for a batch of 2 frames with k0 / k1
+    detected centroids (0..3 each) and max_instances in {None, 1, 2}; the peak detector is
+    abstracted to 'the k0 + k1 peaks in sample order with arbitrary points and values' (its own
+    contract is C06), everything else is the real code."""
+
+    target = TD + "CentroidCrop.forward"
+    props = ("C12",)
+    level = "property"
+    functional = False
+    pure = False
+    no_crosscheck = True
+    no_replay = True
+    dims = ()
+    cases = tuple("%d-%d-%s" % (k0, k1, m) for k0 in range(3) for k1 in range(3) for m in ("None", "1", "2") if k0 + k1 > 0) + ("3-1-2", "0-3-1")
+    bounded = ("CentroidCrop.forward (return_crops=False): batch of 2 frames, 0..2 (3) centroids per frame, max_instances in {None,1,2}; peak detector abstracted to its C06 characterisation; "
+               "coordinates, values, scales symbolic",)
+    not_decided = ("CentroidCrop with return_crops=True (_generate_crops: per-centroid crops carrying frame_idx / video_idx of their frame), use_gt_centroids, the no-detection branch of a whole batch",)
+
+    def inputs(self, c, case):
+        k0, k1, m = case.split("-")
+        ks = [int(k0), int(k1)]
+        K = sum(ks)
+        pts = c.tensor("points", [K, 2], FLOAT, nan_ok=False)
+        vals = c.tensor("values", [K], FLOAT, nan_ok=False)
+        eff = c.tensor("eff_scale", [2], FLOAT, nan_ok=False)
+        er = eff.reader()
+        isc = c.real("input_scale")
+        c.assume(V.f_lt(0.0, isc), V.f_lt(0.0, er([0])), V.f_lt(0.0, er([1])))
+        # distinct values: "the highest-scoring ones" is then a definite set
+        vr = vals.reader()
+        for i in range(K):
+            for j in range(i + 1, K):
+                c.assume(V.b_not(V.f_eq(vr([i]), vr([j]))))
+        H, W = c.dim("H", lo=1), c.dim("W", lo=1)
+        # domain of resize_image: the scaled sides are at least one pixel
+        c.assume(V.f_le(1.0, V.f_mul(T.cast_scalar(H, FLOAT), isc)), V.f_le(1.0, V.f_mul(T.cast_scalar(W, FLOAT), isc)))
+        return dict(ks=ks, points=pts, values=vals, eff=eff, input_scale=isc, stride=c.int("output_stride", lo=1), max_instances=(None if m == "None" else int(m)),
+                    image=c.tensor("image", [2, 1, H, W], FLOAT, nan_ok=False),
+                    cms=c.tensor("cms", [2, 1, c.dim("Hc", lo=1), c.dim("Wc", lo=1)], FLOAT, nan_ok=False))
+
+    def run(self, interp, a):
+        cv = interp.resolve_dotted(TD + "CentroidCrop")
+        sample_inds = T.from_flat([sum(a["ks"])], [0] * a["ks"][0] + [1] * a["ks"][1], INT)
+        chan = T.from_flat([sum(a["ks"])], [0] * sum(a["ks"]), INT)
+        interp.overrides = {"sleap_nn.inference.peak_finding.find_local_peaks": lambda *x, **k: (a["points"], a["values"], sample_inds, chan)}
+        obj = Obj(cv)
+        obj.attrs.update(torch_model=FixedNet(a["cms"]), peak_threshold=0.2, refinement=None, integral_patch_size=5, output_stride=a["stride"], return_confmaps=False,
+                         max_instances=a["max_instances"], return_crops=False, crop_hw=(8, 8), input_scale=a["input_scale"], precrop_resize=1.0, max_stride=1,
+                         use_gt_centroids=False, anchor_ind=None)
+        m, _ = cv.lookup("forward")
+        inputs = {"image": a["image"], "eff_scale": a["eff"], "frame_idx": "frame_idx", "video_idx": "video_idx"}
+        try:
+            return interp.call(m, [obj, inputs], {})
+        finally:
+            interp.overrides = {}
+
+    def ensures(self, c, result, ks, points, values, eff, input_scale, stride, max_instances, image, cms):
+        if not isinstance(result, dict):
+            return [("PL/returns-the-input-dict", False)]
+        cen, cv_ = result.get("centroids"), result.get("centroid_vals")
+        M = max_instances if max_instances is not None else max(ks)
+        cl = [("PL/frame-and-video-indices-pass-through", result.get("frame_idx") == "frame_idx" and result.get("video_idx") == "video_idx")]
+        if not (isinstance(cen, STensor) and isinstance(cv_, STensor) and list(cen.shape) == [2, 1, M, 2] and list(cv_.shape) == [2, M]):
+            return cl + [("PL/centroids-(batch,1,max_instances,2)-and-values-(batch,max_instances)", False)]
+        cr, vr, pr, sr, er = cen.reader(), cv_.reader(), points.reader(), values.reader(), eff.reader()
+        st = T.cast_scalar(stride, FLOAT)
+        start = [0, ks[0]]
+        for b in range(2):
+            mine = list(range(start[b], start[b] + ks[b]))       # this frame's peaks
+            scaled = lambda q, k, b=b: V.f_div(V.f_div(V.f_mul(pr([q, k]), st), input_scale), er([b]))
+            kept = min(M, len(mine))
+            rows = []
+            for r in range(M):
+                if r < kept:
+                    # row r is one of THIS frame's peaks (never a batch-mate's), with its value
+                    rows.append(V.b_or(*[V.b_and(V.f_same(cr([b, 0, r, 0]), scaled(q, 0)), V.f_same(cr([b, 0, r, 1]), scaled(q, 1)), V.f_same(vr([b, r]), sr([q]))) for q in mine]))
+                else:
+                    rows.append(V.b_and(V.f_isnan(cr([b, 0, r, 0])), V.f_isnan(cr([b, 0, r, 1])), V.f_isnan(vr([b, r]))))
+            cl.append(("PL/frame%d/rows-are-this-frame's-own-centroids-(scaled-by-its-own-eff_scale)-then-NaN-padding" % b, V.b_and(*rows)))
+            # no centroid twice; when there are more than max_instances, the kept ones are the highest-scoring
+            distinct = V.b_and(*[V.b_not(V.f_eq(vr([b, r1]), vr([b, r2]))) for r1 in range(kept) for r2 in range(r1 + 1, kept)])
+            cl.append(("PL/frame%d/no-centroid-is-kept-twice" % b, distinct))
+            if len(mine) > M:
+                top = V.b_and(*[V.b_or(V.b_or(*[V.f_eq(sr([q]), vr([b, r])) for r in range(kept)]),      # q is kept, or
+                                       V.b_and(*[V.f_lt(sr([q]), vr([b, r])) for r in range(kept)]))     # q scores below every kept one
+                                for q in mine])
+                cl.append(("PL/frame%d/with-max_instances-the-kept-centroids-are-the-highest-scoring-ones" % b, top))
         return cl
